@@ -30,6 +30,25 @@ def make_tasks(kind):
         return (lambda i: ODD[i]), (lambda t: next(i for i, x in enumerate(ODD) if type(x) is type(t) and x == t))
     if kind == 'eq':
         return (lambda i: ('t', i, str(i))), (lambda t: t[1])
+    if kind == 'lib':
+        # items whose identity / equality / hash is defined by the LIBRARY, as the clocks queue them: two distinct Function
+        # wrappers of one python function, two Routines over one generator function, a bound method (fresh but equal on
+        # every access) -- distinct objects are distinct items, whatever their lazy __eq__ returns
+        from sc3.base.functions import Function
+        from sc3.base.stream import Routine
+        def f0(): return None
+        def f1(): return None
+        def g0(): yield 1
+        def g1(): yield 1
+        class Obj:
+            def stop(self): pass
+        o = Obj()
+        objs = [Function(f0), Function(f0), Function(f1), Routine(g0), Routine(g0), None, Function(f1), Routine(g1)]
+        def get(i):
+            return o.stop if i == 5 else objs[i]
+        def back(t):
+            return 5 if isinstance(t, type(o.stop)) else next(i for i, x in enumerate(objs) if x is t)
+        return get, back
     objs = [Task() for _ in range(8)]
     return objs.__getitem__, (lambda t: next(i for i, x in enumerate(objs) if x is t))
 
@@ -192,6 +211,11 @@ def main():
                     res[key].append({'error': '%s: %s' % (type(e).__name__, e)})
         json.dump(res, open(sys.argv[2], 'w'))
         return
+    if any(c['ops'] and c['ops'][0] == ['tasks', 'lib'] for c in spec['cases']):
+        import logging, warnings
+        warnings.simplefilter('ignore'); logging.disable(logging.CRITICAL)
+        import sc3
+        sc3.init('nrt')               # library objects (Function, Routine) need the library running
     from sc3.base._taskq import TaskQueue
     json.dump({'out': [run_case(TaskQueue, c['ops']) for c in spec['cases']]}, open(sys.argv[2], 'w'))
 
